@@ -189,6 +189,9 @@ func (a *adv) Step(j int, mech string, msg []byte, has bool) refsmtp.AuthStep {
 			text = b64(sasl.ServerSignatureFor(h, advPass, a.salt, 64, a.cfBare+","+a.srvFirst+","))
 		}
 		a.lastWasV = true
+	case "srvError": // the server-error attribute of RFC 5802 in place of a server-final: no signature at all
+		text = b64("e=other-error")
+		a.lastWasV = true // (an empty response to it is an acknowledgement, as for a server-final)
 	case "staleFinal": // the valid signature of the previous exchange on this connection
 		am := a.prevAM
 		if am == "" {
